@@ -2578,7 +2578,13 @@ func storeRcvr(v Value, p unsafe.Pointer) {
 		iface := (*nonEmptyInterface)(v.ptr)
 		*(*unsafe.Pointer)(p) = ifacePtrData(iface)
 	} else if v.flag&flagIndir != 0 && !ifaceIndir(t) {
-		*(*unsafe.Pointer)(p) = *(*unsafe.Pointer)(v.ptr)
+		if t.Kind() == abi.Pointer {
+			*(*unsafe.Pointer)(p) = *(*unsafe.Pointer)(v.ptr)
+		} else {
+			// value-receiver methods of map/chan/func-shaped types are entered through their
+			// pointer-receiver wrapper: pass the address of the addressable value
+			*(*unsafe.Pointer)(p) = v.ptr
+		}
 	} else if v.flag&flagIndir == 0 && runtime.DirectIfaceData(t) {
 		*(*unsafe.Pointer)(p) = unsafe.Pointer(&v.ptr)
 	} else {
